@@ -385,6 +385,16 @@ func trunc(s string, n int) string {
 }
 
 func (Driver) Replay(c *core.Ctx, raw json.RawMessage) []core.Mismatch {
+	var peek struct {
+		What string `json:"what"`
+	}
+	if json.Unmarshal(raw, &peek) == nil && peek.What == "curve" {
+		var cs CurveScenario
+		if err := json.Unmarshal(raw, &cs); err != nil {
+			return []core.Mismatch{{Signature: "machinery", Detail: err.Error()}}
+		}
+		return replayCurve(c, &cs)
+	}
 	var s Scenario
 	if err := json.Unmarshal(raw, &s); err != nil || s.H == nil {
 		return []core.Mismatch{{Signature: "machinery", Detail: fmt.Sprint("bad scenario: ", err)}}
@@ -604,6 +614,8 @@ func (d Driver) Run(c *core.Ctx) error {
 			r.runGen("offset", tlc.Opts{Module: "Stroke", Config: cfg(3, 5, 400, "offset", hws, false), Seed: c.Seed + 2, Workers: 4})
 		})
 	}
+	// 3. curved paths (round cap, round join): spec/StrokeCurves.tla
+	stage(func() { runCurves(c) })
 	wg.Wait()
 	c.Count(0, r.nontriv, 0)
 	c.SetExtra("tlc_scenarios", r.n)
